@@ -123,7 +123,7 @@ class Parser:
                 depth -= v == ']'
                 txt.append(v)
             if 'cfg' in txt:
-                raise Untranslatable('cfg-conditional statement')
+                return ('cfgstmt', ' '.join(txt), self.stmt())
             return self.stmt()
         if self.at('let'):
             self.eat()
@@ -298,6 +298,9 @@ class Parser:
             return ('ifexpr', scrut, th, el)
         if v == '{':
             return ('block', self.block())
+        if v == '||':
+            self.eat('||')
+            return ('closure', self.expr())
         if v == '|':
             self.eat('|')
             while not self.at('|'):
@@ -647,6 +650,15 @@ class Sym:
         else:
             raise Untranslatable('pattern %s := %s' % (pat[0], t))
 
+    def run_cfg(self, s, rest, env, ind):
+        raise Untranslatable('cfg-conditional statement')
+
+    def flush(self, ind):
+        return ''
+
+    def effect(self, e, env):
+        raise Untranslatable('expression statement')
+
     # ---- results
     def ret(self, v, t):
         if t == 'err':
@@ -717,6 +729,11 @@ class Sym:
         s, rest = stmts[0], stmts[1:]
         k = s[0]
         if k == 'macro':
+            return self.run(rest, env, ind)
+        if k == 'cfgstmt':
+            return self.run_cfg(s, rest, env, ind)
+        if k == 'expr' and s[2] and rest:
+            self.effect(s[1], env)
             return self.run(rest, env, ind)
         if k == 'let':
             pat, e = s[1], s[2]
@@ -796,13 +813,210 @@ class Sym:
             return pre + self.run(rest, env, ind)
         if k == 'return':
             v, t = self.ev(s[1], env)
-            return ind + self.ret(v, t)
+            return self.flush(ind) + ind + self.ret(v, t)
         if k == 'expr':
             if rest or s[2]:
                 raise Untranslatable('expression statement')
             v, t = self.ev(s[1], env)
-            return ind + self.ret(v, t)
+            return self.flush(ind) + ind + self.ret(v, t)
         raise Untranslatable('statement %s' % k)
+
+
+class GSym(Sym):
+    """R1CS gadget bodies (src/ark_curve/r1cs/{inner,fqvar_ext}.rs): an `FqVar` / `Boolean` is its value; the constraints
+    the body emits (`enforce_equal`, `conditional_enforce_equal`, `inverse`, `isqrt`) accumulate, in program order, in
+    `self.sat`; the result is `(sat_1 && … && sat_n, outputs…)`.  `ark-r1cs-std` primitives enter by the same
+    contract as in Model/R1cs.lean: `inverse` is satisfiable iff the operand is non-zero, `is_eq`/`select`/`and`/`or`/`not`
+    compute their functions, `to_bits_le` is the canonical decomposition (so `is_negative` is the parity).  The prover's
+    choice of witness values is the parameter `h` (the hook `verif::hint`)."""
+
+    def __init__(self, cfg, consts):
+        super().__init__(cfg, consts)
+        self.sat = []
+
+    def need(self, cond):
+        self.sat.append(cond)
+
+    def ev(self, e, env):
+        k = e[0]
+        if k == 'try':
+            return self.ev(e[1], env)
+        if k == 'closure':
+            return self.ev(e[1], env)
+        if k == 'method':
+            name, args = e[2], e[3]
+            a, t = self.ev(e[1], env)
+            av = [self.ev(x, env) for x in args]
+            ts = [x[1] for x in av]
+            if name in ('clone', 'borrow'):
+                return (a, t)
+            if name == 'cs':
+                return ('cs', 'cs')
+            if t == 'fq':
+                if name == 'square' and not args:
+                    return ('(fsq q %s)' % a, 'fq')
+                if name == 'negate' and not args:
+                    return ('(fneg q %s)' % a, 'fq')
+                if name == 'double' and not args:
+                    return ('(fadd q %s %s)' % (a, a), 'fq')
+                if name == 'abs' and not args:
+                    return ('(fabs %s)' % a, 'fq')
+                if name == 'is_negative' and not args:
+                    return ('(isNeg %s)' % a, 'bool')
+                if name == 'is_nonnegative' and not args:
+                    return ('(!isNeg %s)' % a, 'bool')
+                if name == 'inverse' and not args:
+                    self.need('(%s != 0)' % a)
+                    return ('(finv q %s)' % a, 'fq')
+                if name == 'isqrt' and not args:
+                    n = self.fresh('isq')
+                    self.pending.append('let %s := R1cs.isqrt %s h' % (n, a))
+                    self.need('%s.1' % n)
+                    return ([('%s.2.1' % n, 'bool'), ('%s.2.2' % n, 'fq')], 'tuple')
+                if name == 'is_eq' and ts == ['fq']:
+                    return ('(%s == %s)' % (a, av[0][0]), 'bool')
+                if name == 'enforce_equal' and ts == ['fq']:
+                    self.need('(%s == %s)' % (a, av[0][0]))
+                    return ('()', 'unit')
+                if name == 'conditional_enforce_equal' and ts == ['fq', 'bool']:
+                    self.need('(!%s || %s == %s)' % (av[1][0], a, av[0][0]))
+                    return ('()', 'unit')
+                if name == 'value' and not args:
+                    return (a, 'fqvalue')
+                if name == 'is_constant' and not args:
+                    return ('isConst', 'bool')
+            if t == 'fqvalue' and name == 'unwrap_or' and ts == ['fq']:
+                return (a, 'fq')          # proving mode: the variable has a value
+            if t == 'bool':
+                if name == 'not' and not args:
+                    return ('(!%s)' % a, 'bool')
+                if name in ('and', 'or') and ts == ['bool']:
+                    return ('(%s %s %s)' % (a, '&&' if name == 'and' else '||', av[0][0]), 'bool')
+                if name == 'is_eq' and ts == ['bool']:
+                    return ('(%s == %s)' % (a, av[0][0]), 'bool')
+                if name == 'enforce_equal' and ts == ['bool']:
+                    self.need(a if av[0][0] == 'true' else '(%s == %s)' % (a, av[0][0]))
+                    return ('()', 'unit')
+                if name == 'select' and ts == ['fq', 'fq']:
+                    return ('(if %s then %s else %s)' % (a, av[0][0], av[1][0]), 'fq')
+            if t == 'pair' and name == 'is_eq' and ts == ['pair']:
+                raise Untranslatable('nested ElementVar::is_eq')
+            raise Untranslatable('gadget method .%s on %s%s' % (name, t, ts))
+        if k == 'call':
+            if e[1][0] != 'path':
+                raise Untranslatable('call of a non-path')
+            f = e[1][1]
+            av = [self.ev(x, env) for x in e[2]]
+            ts = [x[1] for x in av]
+            if f in ('FqVar::one', 'FqVar::zero') and not av:
+                return ('1' if f.endswith('one') else '0', 'fq')
+            if f == 'FqVar::constant' and ts == ['fq']:
+                return av[0]
+            if f == 'FqVar::new_constant' and ts == ['cs', 'fq']:
+                return av[1]
+            if f in ('FqVar::new_witness', 'Boolean::new_witness') and len(av) == 2 and ts[0] == 'cs' and ts[1] in ('fq', 'bool'):
+                return av[1]              # a witness carries whatever value the prover supplies: see `verif::hint`
+            if f == 'Boolean::constant' and ts == ['bool']:
+                return av[0]
+            if f == 'FqVar::conditionally_select' and ts == ['bool', 'fq', 'fq']:
+                return ('(if %s then %s else %s)' % (av[0][0], av[1][0], av[2][0]), 'fq')
+            if f in ('AffineVar::new', 'Decaf377EdwardsVar::new') and ts == ['fq', 'fq']:
+                return ((av[0][0], av[1][0]), 'pair')
+            if f in ('Fq::sqrt_ratio_zeta',) and ts == ['fq', 'fq'] and av[0][0] == '1':
+                n = self.fresh('hon')
+                self.pending.append('let %s := R1cs.honest %s' % (n, av[1][0]))
+                return ([('%s.1' % n, 'bool'), ('%s.2' % n, 'fq')], 'tuple')
+            if f.endswith('verif::hint') and ts == ['fq', 'bool', 'fq']:
+                n = self.fresh('hint')
+                self.pending.append('let %s := h.getD (%s, %s)' % (n, av[1][0], av[2][0]))
+                return ([('%s.1' % n, 'bool'), ('%s.2' % n, 'fq')], 'tuple')
+            if f == 'Ok' and len(av) == 1:
+                return av[0]
+            if f in ('Fq::from',) and len(e[2]) == 1 and e[2][0][0] == 'num':
+                return (str(e[2][0][1]), 'fq')
+            raise Untranslatable('gadget call of %s%s' % (f, ts))
+        if k == 'path':
+            p = e[1]
+            if p in ('Boolean::TRUE', 'Boolean::FALSE'):
+                return ('true' if p.endswith('TRUE') else 'false', 'bool')
+            return super().ev(e, env)
+        if k == 'field':
+            a, t = self.ev(e[1], env)
+            if t == 'pair' and e[2] == 'inner':
+                return (a, 'pair')
+            if t == 'pair' and e[2] in ('x', 'y'):
+                return (a['xy'.index(e[2])], 'fq')
+            raise Untranslatable('gadget field .%s of %s' % (e[2], t))
+        if k == 'struct':
+            if e[1] in ('ElementVar', 'Self') and len(e[2]) == 1 and e[2][0][0] == 'inner':
+                a, t = self.ev(e[2][0][1], env)
+                if t == 'pair':
+                    return (a, 'pair')
+            raise Untranslatable('struct literal %s' % e[1])
+        if k == 'tuple':
+            return ([self.ev(x, env) for x in e[1]], 'tuple')
+        return super().ev(e, env)
+
+    pending = None
+
+    def flush(self, ind):
+        out = ''.join('%s%s\n' % (ind, l) for l in self.pending)
+        del self.pending[:]
+        return out
+
+    def bind(self, name, val, env, ind):
+        pre = self.flush(ind)
+        return pre + super().bind(name, val, env, ind)
+
+    def run(self, stmts, env, ind='  ', tail=True):
+        if self.pending is None:
+            self.pending = []
+        if stmts and stmts[0][0] == 'let' and stmts[0][2] is not None and stmts[0][1][0] == 'ptuple':
+            # tuple lets: evaluate, flush the auxiliary lets first
+            pat, e = stmts[0][1], stmts[0][2]
+            v, t = self.ev(e, env)
+            if t != 'tuple' or len(v) != len(pat[1]) or any(p_[0] != 'pname' for p_ in pat[1]):
+                raise Untranslatable('gadget tuple pattern')
+            env = dict(env)
+            pre = self.flush(ind)
+            for p_, x in zip(pat[1], v):
+                pre += Sym.bind(self, p_[1], x, env, ind)
+            return pre + self.run(stmts[1:], env, ind)
+        if stmts and stmts[0][0] == 'if' and self.diverges(stmts[0][2]) and stmts[0][3] is None:
+            c, tc = self.ev(stmts[0][1], env)
+            saved = list(self.sat)
+            th = self.run(stmts[0][2], env, ind + '  ')
+            self.sat = saved
+            el = self.run(stmts[1:], env, ind + '  ')
+            return '%sif %s then\n%s\n%selse\n%s' % (ind, c, th, ind, el)
+        return super().run(stmts, env, ind)
+
+    def run_cfg(self, s, rest, env, ind):
+        if 'decaf377_verif' in s[1]:
+            return self.run([s[2]] + rest, env, ind)       # the hook: where the prover's choice of witnesses enters
+        raise Untranslatable('cfg-conditional statement')
+
+    def effect(self, e, env):
+        v, t = self.ev(e, env)
+        if t != 'unit':
+            raise Untranslatable('expression statement of type %s' % t)
+
+    def ret(self, v, t):
+        sat = ' && '.join(self.sat) if self.sat else 'true'
+        pre = ''
+        if t == 'pair':
+            outs = '%s, %s' % v
+        elif t == 'tuple':
+            outs = ', '.join(x[0] for x in v)
+        elif t in ('fq', 'bool'):
+            outs = v
+        else:
+            raise Untranslatable('gadget result of type %s' % t)
+        if self.cfg.get('nosat'):
+            if self.sat:
+                raise Untranslatable('constraints in a value-only gadget')
+            return outs
+        return '%s(%s, %s)' % (pre, sat, outs)
 
 
 # ---------------------------------------------------------------------------------------------- targets
@@ -842,6 +1056,18 @@ TARGETS = [
          new_order=None, fallback='Ext.eq ⟨X1, Y1, Z1, T1⟩ ⟨X2, Y2, Z2, T2⟩', lean_ret='Bool'),
     dict(name='ark_is_identity', file='src/ark_curve/element/projective.rs', impl=r'impl\s+Element\s*\{', fn='is_identity', mode='pure', ret='bool',
          params='(X Y Z T : Nat)', env={'self': EXT1}, new_order=None, fallback='Ext.isIdentity ⟨X, Y, Z, T⟩', lean_ret='Bool'),
+    dict(name='r1cs_compress', file='src/ark_curve/r1cs/inner.rs', impl=r'impl\s+ElementVar\s*\{', fn='compress_to_field', gadget=True, mode='pure', ret='fq',
+         params='(x y : Nat) (h : R1cs.Hint)', env={'self': (('x', 'y'), 'pair')}, new_order=None, fallback='R1cs.compress x y h', lean_ret='Bool × Nat'),
+    dict(name='r1cs_decompress', file='src/ark_curve/r1cs/inner.rs', impl=r'impl\s+ElementVar\s*\{', fn='decompress_from_field', gadget=True, mode='pure', ret='pair',
+         params='(s : Nat) (h : R1cs.Hint)', env={'s_var': ('s', 'fq')}, new_order=None, fallback='R1cs.decompress s h', lean_ret='Bool × Nat × Nat'),
+    dict(name='r1cs_elligator', file='src/ark_curve/r1cs/inner.rs', impl=r'impl\s+ElementVar\s*\{', fn='elligator_map', gadget=True, mode='pure', ret='pair',
+         params='(r0 : Nat) (h : R1cs.Hint)', env={'r_0_var': ('r0', 'fq')}, new_order=None, fallback='R1cs.elligator r0 h', lean_ret='Bool × Nat × Nat'),
+    dict(name='r1cs_is_eq', file='src/ark_curve/r1cs/inner.rs', impl=r'impl\s+EqGadget\s*<\s*Fq\s*>\s*for\s+ElementVar\s*\{', fn='is_eq', gadget=True, nosat=True, mode='pure', ret='bool',
+         params='(x1 y1 x2 y2 : Nat)', env={'self': (('x1', 'y1'), 'pair'), 'other': (('x2', 'y2'), 'pair')}, new_order=None,
+         fallback='R1cs.isEq (x1, y1) (x2, y2)', lean_ret='Bool'),
+    dict(name='r1cs_isqrt', file='src/ark_curve/r1cs/fqvar_ext.rs', impl=r'impl\s+FqVarExtension\s+for\s+FqVar\s*\{', fn='isqrt', gadget=True, mode='pure', ret='tuple',
+         params='(isConst : Bool) (x : Nat) (h : R1cs.Hint)', env={'self': ('x', 'fq')}, new_order=None,
+         fallback='if isConst then (true, h.getD (R1cs.honest x)) else R1cs.isqrt x h', lean_ret='Bool × Bool × Nat'),
 ]
 
 
@@ -877,7 +1103,7 @@ def translate(repo, cfg, index):
     info = dict(file=cfg['file'], fn=cfg['fn'], lines=[l0, l1], sha256=hashlib.sha256(text.encode()).hexdigest())
     p = Parser(tokenize(text))
     stmts = p.block()
-    sym = Sym(cfg, const_table(repo, cfg['file'], index))
+    sym = (GSym if cfg.get('gadget') else Sym)(cfg, const_table(repo, cfg['file'], index))
     sym.repo = repo
     body = sym.run(stmts, dict(cfg['env']))
     return body, info
@@ -887,7 +1113,7 @@ def main():
     repo, out = sys.argv[1], sys.argv[2]
     index = json.load(open(os.path.join(os.path.dirname(out), 'Constants.index.json')))
     parts = ['/- GENERATED by translator/extract_formulas.py from the Rust sources of the repository; do not edit. -/',
-             'import Decaf.Model.Curve', '', 'namespace Gen.Formulas', 'open Model', '']
+             'import Decaf.Model.R1cs', '', 'namespace Gen.Formulas', 'open Model', '']
     report = {}
     for cfg in TARGETS:
         info = dict(file=cfg['file'], fn=cfg['fn'])
